@@ -85,7 +85,7 @@ def _val(v):
 
 
 def _time(t):
-    return enc(pd.Timestamp(t).to_pydatetime())
+    return 'N' if t is None else enc(pd.Timestamp(t).to_pydatetime())
 
 
 def enc_result(r):
@@ -703,7 +703,7 @@ def py_stitch(dfs, ub, n):
         grp = [dict(p) for p in dfs[i:i + max(n, 1)]]
         ts = sorted(set(t for g in grp for t in g))
         for t in ts:
-            if (lo is None or t > lo) and t <= ub[i]:
+            if (lo is None or t > lo) and (ub[i] is None or t <= ub[i]):      # a missing (None) bound is unbounded
                 vs = [g.get(t) for g in grp]
                 rows.append((t, vs + [None] * (w - len(vs))))
     return w, rows
@@ -750,7 +750,12 @@ def laws(rng, tier, ctx):
         ub = [day(b) for b in rand_bounds(rng, m, strict=True)]
         n = rng.choice(list(range(1, m + 1)))
         count += 2
-        case = dict(tag='law-stitch', lines=[stitch_line(dfs, None, ub, '(]', n)])
+        opn = rng.random() < 0.2
+        if opn:
+            # review v4 2.1: the LAST bound missing = unbounded (df_slice documents `None` bounds; `_is_non_decreasing([d1, d2, None])`).
+            # The model's bound lists hold dates only (such a line is `bad-op` there): checked on the implementation alone
+            ub = ub[:-1] + [None]
+        case = dict(tag='law-stitch' + ('+open-end' if opn else ''), lines=[stitch_line(dfs, None, ub, '(]', n)])
         ss = [pd.Series([float(v) for _, v in p], pd.DatetimeIndex([t for t, _ in p]), dtype=float) for p in dfs]
         try:
             f = df_slice(ss, ub=ub, n=n)
@@ -768,9 +773,9 @@ def laws(rng, tier, ctx):
             yield Finding('violation', case, 'a timestamp is covered more than once')
             continue
         rub = ub
-        if rng.random() < 0.3:
+        if rng.random() < 0.3 and not (opn and m == 2):   # `[None, d]` does not spell a direction (`_is_non_decreasing` reads it as increasing): not generated
             rub = ub[::-1]                                # the same frame, the bounds spelled in decreasing order
-        case = dict(tag='law-roundtrip' + ('-decreasing' if rub is not ub else ''), lines=[roundtrip_line(dfs if rub is ub else dfs[::-1], rub, n)])
+        case = dict(tag='law-roundtrip' + ('-decreasing' if rub is not ub else '') + ('+open-end' if opn else ''), lines=[roundtrip_line(dfs if rub is ub else dfs[::-1], rub, n)])
         try:
             u = df_unslice(f, rub)
             g = df_slice(list(u.values()), ub=rub, n=n)
@@ -779,6 +784,8 @@ def laws(rng, tier, ctx):
             continue
         if proto.canon(proto.parse(enc_frame(g))) != got:
             yield Finding('violation', case, 're-stitched frame %s differs from %s' % (enc_frame(g), enc_frame(f)))
+        elif list(u) != rub and len(set(rub)) == len(rub):
+            yield Finding('violation', case, 'df_unslice does not hand out one series per bound in the order of the bounds: keys %s, bounds %s' % (list(u), rub))
     # --- the new input classes, checked on the implementation alone
     TL = [datetime.time(h) for h in (0, 3, 6, 9, 12, 15, 18, 21)]
     m3 = 120 if tier == 'quick' else 2000
